@@ -176,7 +176,7 @@ def plan(tier, seed):
                 continue
             if g == 'kwfold' and lexer not in ('contextual', 'basic'):
                 continue        # keyword re-typing is the basic lexers' business
-            Lg = (3 if (lexer in ('contextual', 'dynamic') and g in ('lines', 'kwfold')) else 2) if quick else 4
+            Lg = (3 if (lexer in ('contextual', 'dynamic') and g in ('lines', 'kwfold')) else 2) if quick else 3
             Jg = 1
             for pin in (range(k) if Lg >= 3 else [None]):
                 slices.append({'id': '%s:%s:%s:L%d%s' % (g, parser, lexer, Lg, '' if pin is None else ':pin%d' % pin), 'mode': 'realised',
@@ -187,7 +187,7 @@ def plan(tier, seed):
         'technique': 'CrossHair solver-closed enumeration (realised) of texts, enclosing buffers and representations through the real front ends; the str parse is the reference',
         'functions_encoded': ['lark.utils.TextSlice.__post_init__/cast_from/is_complete_text', 'lark.lexer.LexerThread.from_text', 'LexerState', 'LineCounter.from_text_slice',
                               'BasicLexer.next_token (text.end)', 'Scanner.match (pos, endpos)', 'lark.parsers.xearley (bytes)', 'ParsingFrontend.parse'],
-        'bounds': {'chars': 3 if quick else 4, 'junk_pairs': 8, 'representations': ['bytes', 'TextSlice(str)', 'TextSlice(bytes)', 'TextSlice with negative indices', 'TextSlice of the whole text']},
+        'bounds': {'chars': 3, 'junk_pairs': 8, 'representations': ['bytes', 'TextSlice(str)', 'TextSlice(bytes)', 'TextSlice with negative indices', 'TextSlice of the whole text']},
         'outside_bounds': ['non-ASCII input', 'longer texts / junk', 'CYK (needs epsilon-free grammars)'],
         'stubs_and_assumes': ['dynamic lexers accept only complete-text slices (documented): windows are exercised on basic/contextual'],
     }
